@@ -547,7 +547,7 @@ func (m *Model) openDir(c *Conn, r Req, pr *pre, what string) error {
 	}
 	real, clean := pr.real, pr.clean
 	vk, _ := VirtualKind(clean)
-	if vk != "" && strings.HasPrefix(string(r.Path), "/***") {
+	if vk != "" {
 		// virtual-image path used as a directory: reply must be a failure, listing state unknown
 		if res != -1 {
 			return failf("opendir-truth", "%s: virtual image path reported as directory", what)
@@ -1372,6 +1372,11 @@ func (m *Model) create(c *Conn, r Req, pr *pre, what string) error {
 	m.wo = woState{}
 	if vk != "" {
 		if res != -1 {
+			// a real directory may literally carry this name (below a directory named like the prefix): then the
+			// request is the "create of a directory closes the write file" form, which writes nothing
+			if after, aerr := os.Stat(real); usable && berr == nil && before.IsDir() && aerr == nil && after.IsDir() {
+				return nil
+			}
 			return failf("virtual-readonly", "%s: create through a virtual image path succeeded", what)
 		}
 		return nil
